@@ -425,6 +425,23 @@ pub fn run_case(idx: usize, case: &Value, o: &SemOpts) -> (Value, Option<Value>,
                         let recs: Vec<MatchRec> = ms.iter().map(|m| convert(m, &hay, &mut badv)).collect();
                         if recs != prim_recs {
                             diffs.push(json!({"var": name, "h": hi, "s": s, "got": recs_json(&recs)}));
+                        } else if s == 0 && o.api && !ascii {
+                            // the accessors of every executor's and pipeline's matches must read like the
+                            // primary's (which TLC judges against MatchAPI.tla)
+                            let theirs = catch_unwind(AssertUnwindSafe(|| {
+                                ms.iter().map(|m| api_record(m, &hay, &names)).collect::<Vec<Value>>()
+                            }));
+                            match theirs {
+                                Ok(v) => {
+                                    if let Some(Value::Array(mine)) = api.last() {
+                                        if let Some(k) = (0..v.len().min(mine.len())).find(|&k| v[k] != mine[k]) {
+                                            fails.push(json!({"h": hi, "s": 0, "var": format!("api_{}", name),
+                                                "what": format!("accessors of match {} differ from the primary executor's: {} vs {}", k, v[k], mine[k])}));
+                                        }
+                                    }
+                                }
+                                Err(e) => fails.push(json!({"h": hi, "s": 0, "var": format!("api_{}", name), "what": panic_msg(e)})),
+                            }
                         }
                     }
                     Err(e) => fails.push(json!({"h": hi, "s": s, "var": name, "what": e})),
